@@ -90,7 +90,7 @@ def run(ctx):
         vacuous.append("no sibling state was persisted")
     if older_while_newer_absent == 0 or present == 0 or rewritten == 0:
         vacuous.append("no prefix with an older root on disk during a later commit / no root re-opened / no shared node")
-    for k in ("SetData", "AddBalance", "SetNonce", "SetCode", "CloneStorage", "Suicide", "CreateAccount", "CodeOnlyUniqueCode", "CodeOnlySharedCode"):
+    for k in ("SetData", "AddBalance", "SetNonce", "SetCode", "CloneStorage", "Suicide", "CreateAccount", "CodeOnlyUniqueCode", "CodeOnlySharedCode", "RevertedScope"):
         if not kinds.get(k):
             vacuous.append("mutation kind %s never generated" % k)
     # 3. judge the write sequences against the specification, at every prefix
@@ -138,6 +138,8 @@ def run(ctx):
         "the disk store is the package's MemDatabase behind a recording xdb.Database wrapper (the NodeDatabase only sees the interface)",
         "references are extracted from the stored blobs by the harness's own RLP splitter: hash references inside trie nodes, and "
         "storage root / code hash inside account leaves (the empty trie root and the empty-code hashes are not references)",
+        "3% of the mutations of a block are reverted scopes: a slot written earlier in the block is written again (with another slot, "
+        "a balance, the nonce) inside a Snapshot that is reverted before the block is committed",
         "one account in ten is a contract without any storage slot of its own (code, nonce, balance only), with code no other account has or code shared with storage-ful accounts",
         "expected content of a root = what the live AccountDB answered (Exist, nonce, balance, code, every slot of the universe) "
         "after IntermediateRoot(true) and before Commit(true) of that block",
